@@ -72,6 +72,22 @@ func (vn *VNet) Restart(n *NNode, kill bool, gen []int, o NodeOpts) *NNode {
 		}
 	}
 	ierr := m.node.Init()
+	ffUnavailable := false
+	if ierr == nil && o.FastSync && m.State() == "CatchingUp" {
+		// fast-sync is enabled but nobody can serve a fast-forward right now (all
+		// peers unreachable for that request): the node falls back to babbling
+		// from what its database gave it
+		saved := vn.down
+		vn.down = map[int]bool{}
+		for _, q := range vn.nodes {
+			if q.num != m.num {
+				vn.down[q.num] = true
+			}
+		}
+		m.node.VFastForward()
+		vn.down = saved
+		ffUnavailable = true
+	}
 	for _, h := range hashes {
 		if _, err := m.store.GetEvent(h); err == nil {
 			m.view[h] = true
@@ -100,6 +116,6 @@ func (vn *VNet) Restart(n *NNode, kill bool, gen []int, o NodeOpts) *NNode {
 	}
 	ob["nev"] = len(m.view)
 	ob["state"] = m.State()
-	w.Emit(n.num, "Bootstrap", map[string]interface{}{"order": order, "emitted": emitted, "crash": kill, "me": n.num, "genesis": gen}, ob)
+	w.Emit(n.num, "Bootstrap", map[string]interface{}{"order": order, "emitted": emitted, "crash": kill, "me": n.num, "genesis": gen, "ff_unavailable": ffUnavailable}, ob)
 	return m
 }
